@@ -1359,8 +1359,9 @@ impl QueryRouter {
     /// Should client statements be parsed at all? Yes when the parser is on for routing, and also
     /// whenever the pool has plugins: a client must not be able to get its statements past them
     /// by switching the parser off for its session (SET SERVER ROLE TO 'primary'|'replica'|'any').
+    /// The plugins can be the general ones, inherited by a pool whose parser is off for routing.
     pub fn statement_parsing_enabled(&self) -> bool {
-        if self.pool_settings.query_parser_enabled && self.pool_settings.plugins.is_some() {
+        if self.pool_settings.plugins.is_some() {
             return true;
         }
 
